@@ -28,6 +28,7 @@ type rewriter struct {
 	used       map[string]bool // vsched, vsync, vhttp
 	err        error
 	httpServer bool
+	funcLevel  bool
 	tmp        int
 }
 
@@ -189,7 +190,9 @@ func (r *rewriter) list(in []ast.Stmt) []ast.Stmt {
 	for _, s := range in {
 		y := r.yield(s)
 		ns := r.stmt(s)
-		out = append(out, y)
+		if !r.funcLevel {
+			out = append(out, y)
+		}
 		out = append(out, ns...)
 	}
 	return out
@@ -403,7 +406,7 @@ func usesPkg(f *ast.File, name string) bool {
 	return found
 }
 
-func instrumentFile(path, rel string, httpServer bool) ([]byte, error) {
+func instrumentFile(path, rel string, httpServer, funcLevel bool) ([]byte, error) {
 	fset := token.NewFileSet()
 	src, err := os.ReadFile(path)
 	if err != nil {
@@ -413,13 +416,17 @@ func instrumentFile(path, rel string, httpServer bool) ([]byte, error) {
 	if err != nil {
 		return nil, err
 	}
-	r := &rewriter{fset: fset, file: rel, used: map[string]bool{}, httpServer: httpServer}
+	r := &rewriter{fset: fset, file: rel, used: map[string]bool{}, httpServer: httpServer, funcLevel: funcLevel}
 	for _, d := range f.Decls {
 		switch x := d.(type) {
 		case *ast.FuncDecl:
 			r.fields(x.Recv)
 			x.Type = r.expr(x.Type).(*ast.FuncType)
 			r.block(x.Body)
+			if funcLevel && x.Body != nil {
+				// function-level granularity: one scheduling point on entry of every function
+				x.Body.List = append([]ast.Stmt{r.yield(x)}, x.Body.List...)
+			}
 		case *ast.GenDecl:
 			if x.Tok != token.IMPORT {
 				r.genDecl(x)
@@ -485,12 +492,17 @@ func main() {
 	repo := flag.String("repo", "/repo", "repository root")
 	rt := flag.String("rt", "", "directory holding vsched/ vsync/ vhttp/ sources")
 	out := flag.String("out", "", "output directory")
+	fl := flag.String("funclevel", "", "comma-separated files that get a scheduling point per function entry instead of per statement")
 	flag.Parse()
+	funcLevel := map[string]bool{}
+	for _, f := range strings.Split(*fl, ",") {
+		funcLevel[f] = true
+	}
 	os.MkdirAll(*out, 0o755)
 	overlay := map[string]string{}
 	for i, rel := range flag.Args() {
 		src := filepath.Join(*repo, rel)
-		data, err := instrumentFile(src, rel, strings.HasPrefix(rel, "server/"))
+		data, err := instrumentFile(src, rel, strings.HasPrefix(rel, "server/"), funcLevel[rel])
 		if err != nil {
 			fmt.Fprintln(os.Stderr, "instrument:", err)
 			os.Exit(3)
